@@ -80,8 +80,13 @@ def run(ctx):
     ctx.obligation("correspondence: frame clause inside OVER(...) = Model.Window.emitFrame ∘ windowParams", nbad == 0, f"{len(meta)} cases")
 
     # (ii) differential run on SQLite
-    for label, rng, n in [("fixed", random.Random(404), 500 if quick else 5000), ("seed", ctx.rng, 300 if quick else 5000)]:
-        cases = [relgen.make_case(rng, kinds=WIN_KINDS, max_tr=4, **SAFE) for _ in range(n)]
+    # systematic: every sequence of up to 3 (thorough: 4, sampled) transform kinds around windowed derives, seed-independent
+    syskinds = ["sort", "select", "filter", "derive", "take", "window", "join", "group_agg"]
+    syscases = [c for c in relgen.systematic_cases(3 if quick else 4, SAFE, seed=44, sample=(random.Random(44), 512 if quick else 2500), kinds=syskinds)
+                if "window" in c.seq]
+    ctx.coverage_extra["systematic_window_sequences"] = len(syscases)
+    for label, rng, n in [("systematic", None, 0), ("fixed", random.Random(404), 500 if quick else 5000), ("seed", ctx.rng, 300 if quick else 5000)]:
+        cases = syscases if label == "systematic" else [relgen.make_case(rng, kinds=WIN_KINDS, max_tr=4, **SAFE) for _ in range(n)]
         res = relcheck.run_cases(cases, "sql.sqlite")
         for c, r in zip(cases, res):
             orig = c
